@@ -287,6 +287,27 @@ def extra_ties() -> list:
         return []
 
 
+def restore_committed(paths: list) -> str:
+    """Rewrite generated files from the last commit of the framework's repository (only when they differ)."""
+    done = []
+    for rel in paths:
+        p = subprocess.run(["git", "show", f"HEAD:{rel}"], cwd=VERIF, capture_output=True, check=False)
+        if p.returncode != 0:
+            return "not possible (no git history here)"
+        full = os.path.join(VERIF, rel)
+        try:
+            with open(full, "rb") as f:
+                same = f.read() == p.stdout
+        except OSError:
+            same = False
+        if not same:
+            with open(full + ".tmp", "wb") as f:
+                f.write(p.stdout)
+            os.replace(full + ".tmp", full)
+            done.append(os.path.basename(rel))
+    return ", ".join(done) if done else "already in place"
+
+
 def translate_extra(t: dict, force_snapshot: bool) -> str:
     cmd = [PY, os.path.join(VERIF, t["script"]), "--repo", lib.REPO, "--out", os.path.join(VERIF, t["out"]),
            "--snapshot", os.path.join(VERIF, t["snapshot"])]
@@ -418,6 +439,11 @@ def run(prop: str, tier: str, replay: str | None) -> int:
                       "--json", os.path.join(VERIF, "tools", "tables.json")])
         report["extraction"] = out.strip().split("\n")[-1] if out.strip() else f"exit {rc}"
         extraction_ok = rc == 0 and "EXTRACT-OK" in out
+        if not extraction_ok:
+            # the tree left the shape the extractor reads: the tables are the COMMITTED ones (regenerated from /repo), not
+            # whatever an earlier run against another tree left in the working copy (DESIGN 13, false alarm 16)
+            restored = restore_committed(["lean/AioMySensors/Generated/Tables.lean", "tools/tables.json"])
+            report["extraction"] += f" (committed tables restored: {restored})"
         # 1b. body translator (gateway-level properties): handler bodies -> Generated/Bodies.lean
         tie = prop in TIE_PROPS
         stream_tie = prop in STREAM_TIE_PROPS
